@@ -206,8 +206,11 @@ var c11mLogOnce sync.Once
 // instead of letting the test binary be killed.
 var c11mStart = time.Now()
 
-func c11mOverBudget() bool {
-	b := 90 * time.Second
+// Quick tier: the budget is a small multiple of what the tier's own case count needs (storm ≈ 5 s,
+// muxhist ≈ 8 s), so that the driver's 5× wider search after a broken obligation stays bounded
+// (notes/C11.md, round 3); cases beyond it are `budget-exhausted`, never a verdict.
+func c11mOverBudget(quick time.Duration) bool {
+	b := quick
 	if os.Getenv("VERIF_TIER") == "thorough" {
 		b = 780 * time.Second
 	}
@@ -215,7 +218,7 @@ func c11mOverBudget() bool {
 }
 
 func c11mExec(raw json.RawMessage) interface{} {
-	if c11mOverBudget() {
+	if c11mOverBudget(12 * time.Second) {
 		return c11mObs{Err: "budget-exhausted"}
 	}
 	c11mLogOnce.Do(logger.InitNop)
@@ -518,7 +521,7 @@ type c11hObs struct {
 
 func c11hExec(raw json.RawMessage) interface{} {
 	c11mLogOnce.Do(logger.InitNop)
-	if c11mOverBudget() {
+	if c11mOverBudget(15 * time.Second) {
 		return c11hObs{Err: "budget-exhausted"}
 	}
 	var in c11hInput
